@@ -688,6 +688,64 @@ def run2(store, s):
 ''', [("run", [({"a": 1}, "a", 1, "b"), ({}, "x", None, "x")]), ("run2", [({}, "q")])])
 
 
+# ---- classify, then dispatch through a table of small functions
+case('''
+_PUNCT = (';', '(', ')')
+scale = 10
+
+def _kind(t, i, a):
+    if a in _PUNCT:
+        return 'punct'
+    if a.isdigit():
+        return 'num'
+    if a == ':' and i + 1 < len(t):
+        b = t[i + 1]
+        if b.isalpha():
+            return 'sym'
+        if b == '[':
+            return 'open'
+        return 'colon-op'
+    return 'op'
+
+def _read_num(t, i, a, flag):
+    j = i
+    while j < len(t) and t[j].isdigit():
+        j += 1
+    return j, int(t[i:j]) * scale
+
+_READERS = {
+    'punct': lambda t, i, a, flag: (i + 1, a),
+    'num': _read_num,
+    'sym': lambda t, i, a, flag: (i + 2, ("sym", t[i + 1], flag)),
+    'open': lambda t, i, a, flag: (i + 2, ':['),
+    'colon-op': lambda t, i, a, flag: (i + 2, ("op", t[i:i + 2])),
+    'op': lambda t, i, a, flag: (i + 1, ("op", a, scale)),
+}
+
+def read(t, i, flag=False):
+    a = t[i]
+    kind = _kind(t, i, a)
+    return _READERS[kind](t, i, a, flag)
+
+def _times(x):
+    return x * scale
+
+def _times2(x):
+    y = x + 1
+    return y * scale
+
+def capture(x):
+    scale = 2
+    return _times(x) + _times2(x) + scale
+
+def read_shadow(t, i):
+    scale = 3
+    a = t[i]
+    kind = _kind(t, i, a)
+    return _READERS[kind](t, i, a, scale)
+''', [("read", [(";x", 0), ("12+", 0), (":ab", 0), (":[", 0), (":+", 0), ("+", 0), (":", 0)]), ("read_shadow", [("+", 0), ("7", 0)]), ("capture", [(1,), (5,)])])
+
+
 def outcome(ns, fn, args):
     import copy
     try:
